@@ -243,6 +243,18 @@ def run_case(case, ctx):
             _try(lambda: x.astype(int))
             _try(lambda: x.raw())
             _try(lambda: x.uraw())
+        # the same conversions on two-dimensional objects whose codes are not stored row-major (a transposed matrix, a Fortran-ordered input, a reversed view)
+        n_ = hi - lo + 1
+        if n_ >= 4:
+            c2 = np.arange(lo, lo + (n_ // 2) * 2).reshape(2, -1)
+            for x in (_try(lambda: Fxp(c2, s, w, nf, raw=True).T), _try(lambda: Fxp(np.asfortranarray(c2), s, w, nf, raw=True)), _try(lambda: Fxp(c2, s, w, nf, raw=True)[::-1])):
+                if x is not None:
+                    _try(lambda: x.get_val())
+                    _try(lambda: x.astype(float))
+                    _try(lambda: x.astype(int))
+                    _try(lambda: x.get_val(int))
+                    _try(lambda: x.raw())
+                    _try(lambda: x.uraw())
         # objects that were created from integers and got their fraction bits / values later, through raw routes
         if nf > 0:
             for c in (lo, hi, lo + 1 if hi > lo else lo):
